@@ -70,6 +70,8 @@ void free_some_svalues (svalue_t * v, int num) {
 }
 
 void assign_svalue (svalue_t * dest, svalue_t * v) {
+  if (dest == v) /* e.g. m += m: releasing the only reference first would leave nothing to copy */
+    return;
   /* First deallocate the previous value. */
   free_svalue (dest, "assign_svalue");
   assign_svalue_no_free (dest, v);
